@@ -17,6 +17,7 @@ CONSTANTS NBufs,          \* buffers owned by the object kind (0..2)
           MaxObj, MaxMut, MaxOps,
           Dev             \* "none" | "CopyWithoutObjectInit" | "ChildCopyWithoutObjectInit" | "ShallowBuffer"
                           \* | "SharedNotGrabbed" | "RefcountCopied" | "ChildNotCopied"
+                          \* | "FailedCopyReleasesOriginal" (a copy hook that runs out of memory drops the child of the ORIGINAL)
 
 Objs == 1..MaxObj
 VARIABLES alive,          \* set of live object ids
@@ -96,6 +97,17 @@ Copy(o) ==
   /\ held' = [held EXCEPT ![CHOOSE x \in Objs : x \notin alive /\ rc[x] = 0 /\ \A y \in Objs : (y \notin alive /\ rc[y] = 0) => x <= y] = 1]
   /\ UNCHANGED <<freed, harnessHolds, err, lastAns, lastObj>>
 
+(* sqfs_copy when an allocation inside the copy hook fails: the hook returns NULL after releasing exactly what it had   *)
+(* acquired for the copy; the original is untouched.  (Pinned xattr reader: the half-built copy still holds the          *)
+(* original's child pointers after the memcpy and drops those.)                                                          *)
+CopyFails(o) ==
+  /\ err = "none" /\ o \in alive /\ held[o] > 0 /\ nops < MaxOps
+  /\ nops' = nops + 1
+  /\ IF Dev = "FailedCopyReleasesOriginal" /\ HasChild
+     THEN /\ heap' = heap \ {bufs[o][TotalBufs]} /\ freed' = freed \cup {bufs[o][TotalBufs]}
+     ELSE UNCHANGED <<heap, freed>>
+  /\ UNCHANGED <<alive, rc, hasDestroy, bufs, childInit, own, expect, content, nextBuf, shr, harnessHolds, err, lastAns, lastObj, held>>
+
 Grab(o) ==
   /\ err = "none" /\ o \in alive /\ held[o] = 1 /\ nops < MaxOps
   /\ rc' = [rc EXCEPT ![o] = @ + 1] /\ nops' = nops + 1 /\ held' = [held EXCEPT ![o] = 2]
@@ -125,7 +137,7 @@ HarnessRelease ==
 
 Finished == (err # "none" \/ ((\A o \in Objs : held[o] = 0) /\ ~harnessHolds)) /\ UNCHANGED vars
 
-Next == \/ \E o \in Objs : Query(o) \/ Copy(o) \/ Drop(o) \/ Grab(o) \/ \E a \in 1..2 : Mut(o, a)
+Next == \/ \E o \in Objs : Query(o) \/ Copy(o) \/ CopyFails(o) \/ Drop(o) \/ Grab(o) \/ \E a \in 1..2 : Mut(o, a)
         \/ HarnessRelease \/ Finished
 Spec == Init /\ [][Next]_vars
 
